@@ -103,6 +103,42 @@ pub unsafe extern "C" fn pwrite(fd: libc::c_int, buf: *const libc::c_void, n: li
     libc::syscall(libc::SYS_pwrite64, fd, buf, n, off) as libc::ssize_t
 }
 
+// ---- busy-wait detection (C17) ------------------------------------------------------------------
+// SQLite's busy handler sleeps through nanosleep(2) between lock retries. While the executor
+// listens, a sleeping thread marks "some actor thread is waiting for a database lock" and wakes
+// the executor, which thereby learns deterministically that the request it just issued blocks
+// (the alternative outcome is the request's reply).
+static BUSY_LISTEN: AtomicBool = AtomicBool::new(false);
+static BUSY_SEEN: AtomicBool = AtomicBool::new(false);
+static BUSY_WAKE: Mutex<Option<std::thread::Thread>> = Mutex::new(None);
+
+pub fn busy_listen(on: bool) {
+    if on {
+        if let Ok(mut g) = BUSY_WAKE.lock() {
+            *g = Some(std::thread::current());
+        }
+        BUSY_SEEN.store(false, Ordering::SeqCst);
+    }
+    BUSY_LISTEN.store(on, Ordering::SeqCst);
+}
+
+pub fn busy_seen() -> bool {
+    BUSY_SEEN.load(Ordering::SeqCst)
+}
+
+#[no_mangle]
+pub unsafe extern "C" fn nanosleep(req: *const libc::timespec, rem: *mut libc::timespec) -> libc::c_int {
+    if BUSY_LISTEN.load(Ordering::SeqCst) {
+        BUSY_SEEN.store(true, Ordering::SeqCst);
+        if let Ok(g) = BUSY_WAKE.try_lock() {
+            if let Some(t) = g.as_ref() {
+                t.unpark();
+            }
+        }
+    }
+    libc::syscall(libc::SYS_nanosleep, req, rem) as libc::c_int
+}
+
 #[no_mangle]
 pub unsafe extern "C" fn fsync(fd: libc::c_int) -> libc::c_int {
     write_hook();
